@@ -9,6 +9,7 @@ import (
 	"strings"
 
 	_ "verifharness/internal/checks"
+	"verifharness/internal/crash"
 	"verifharness/internal/sup"
 )
 
@@ -34,6 +35,10 @@ func main() {
 		replay := fs.String("replay", "", "")
 		_ = fs.Parse(os.Args[2:])
 		os.Exit(sup.Run(sup.Options{Root: *root, Prop: *prop, Tier: *tier, Seed: *seed, Bin: *bin, RaceBin: *raceBin, Workers: *workers, Replay: *replay}))
+	case "crashwriter":
+		os.Exit(crash.WriterMain(os.Args[2]))
+	case "crashreader":
+		os.Exit(crash.ReaderMain(os.Args[2]))
 	case "worker":
 		fs := flag.NewFlagSet("worker", flag.ExitOnError)
 		prop := fs.String("prop", "", "")
